@@ -336,8 +336,14 @@ def classes : List ClassRow := [
 %(rows)s
 ]
 
+/-- everything a constructor of an in-scope class does besides storing its parameters: attributes that are not
+constructor parameters (derived flags, private copies) and calls on `self` -/
+def ctorSideState : List String := [
+%(side)s
+]
+
 end MlVerif.Gen.C01
-""" % dict(
+""" % dict(side=",\n".join('  "%s"' % x for x in _ctor_side_state(table)),
         l_prefix=l_prefix, l_prefix_c=chars(l_prefix), l_dstr=l_dstr,
         l_d=("(%d : Int)" % len(l_dstr)) if l_dstr is not None else unk("learner d"),
         l_from=l_from, l_get=l_get, l_get_c=chars(l_get),
@@ -593,6 +599,30 @@ def configs(ns):
     cfg["TimeSeriesDifference"] = [lambda: c["TimeSeriesDifference"](), lambda: c["TimeSeriesDifference"](2)]
     cfg["TimeSeriesDifferenceInv"] = [lambda: c["TimeSeriesDifferenceInv"](c["TimeSeriesDifference"](2))]
     return cfg
+
+
+def _ctor_side_state(table):
+    """`self.x = ...` with x not a constructor parameter, and `self.m(...)` calls, in the constructor in effect of every
+    in-scope class.  scikit-learn's contract (clone, set_params) is that `__init__` only stores its arguments: state
+    derived from them there is not refreshed by set_params."""
+    out = []
+    for info in classes.in_scope(table):
+        c, init = info.find_method(table, "__init__")
+        if init is None:
+            continue
+        sig = info.facts.get("ctor_params")
+        params = {p for p, _ in sig["params"]} if isinstance(sig, dict) else set()
+        for n in ast.walk(init):
+            if isinstance(n, (ast.Assign, ast.AugAssign, ast.AnnAssign)):
+                tg = n.targets if isinstance(n, ast.Assign) else [n.target]
+                for t in tg:
+                    if isinstance(t, ast.Attribute) and isinstance(t.value, ast.Name) and t.value.id == "self" \
+                            and t.attr not in params:
+                        out.append("%s (in %s): self.%s =" % (info.name, c.name, t.attr))
+            if isinstance(n, ast.Expr) and isinstance(n.value, ast.Call) and isinstance(n.value.func, ast.Attribute) \
+                    and isinstance(n.value.func.value, ast.Name) and n.value.func.value.id == "self":
+                out.append("%s (in %s): call self.%s" % (info.name, c.name, n.value.func.attr))
+    return out
 
 
 def scope_names(ctx):
@@ -1191,6 +1221,104 @@ def check_learner_rebind(ns, vs, stats):
                             {"kind": "rebind", "class": "SkBaseTransformLearner"}, out[:3].tolist(), b.predict(X)[:3].tolist()))
 
 
+def check_ctor_values(ctx, name, ns, vs, stats):
+    """Constructor called with the values the CURRENT source compares its parameters with (`_guided`), one and two at a
+    time: get_params reports every given argument verbatim, and clone rebuilds an equal object."""
+    from props import _guided
+    cls = ns["cls"][name]
+    for ov in _guided.overrides(ctx.repo, name, pairs=True, cap=ctx.pick(40, 200)):
+        try:
+            o = cls(**ov)
+            got = o.get_params(deep=False)
+        except Exception:  # noqa: BLE001   (required positional arguments, refused combination)
+            continue
+        stats["evaluations"] += 1
+        stats["nontrivial"].add((name, "ctor", tuple(sorted(ov))))
+        inp = {"class": name, "kind": "ctor", "kwargs": ov}
+        # "get_params reports exactly what rebuilds the object": the object rebuilt from the report reports the same
+        # (a constructor may normalise an argument - known finding of DESIGN 12.4 - but then it must be idempotent)
+        try:
+            got2 = cls(**got).get_params(deep=False)
+            bad = [k for k in got if k not in got2 or not (got2[k] is got[k] or same(got2[k], got[k]))]
+        except Exception as ex:  # noqa: BLE001
+            bad, got2 = ["<constructor raises %s>" % type(ex).__name__], {}
+        if bad:
+            vs.append(Violation("%s.__init__:get_params-does-not-rebuild:%s" % (name, ",".join(sorted(bad))),
+                                "the object built from get_params() of a freshly constructed object reports other parameters",
+                                inp, {k: repr(got2.get(k))[:40] for k in bad}, {k: repr(got.get(k))[:40] for k in bad}))
+            continue
+        try:
+            c = ns["clone"](o)
+            if canon_params(c.get_params(deep=True), ns) != canon_params(o.get_params(deep=True), ns):
+                vs.append(Violation("%s.clone:params-differ" % name, "clone of a freshly constructed object reports other parameters",
+                                    inp))
+        except Exception as ex:  # noqa: BLE001
+            vs.append(Violation("%s.clone:raises" % name, "clone raises %s on a freshly constructed object" % type(ex).__name__,
+                                inp, "%s: %s" % (type(ex).__name__, str(ex)[:100]), "an equal unfitted object"))
+
+
+def _atom(v):
+    return v is None or isinstance(v, (bool, int, float, str))
+
+
+def check_multi(name, ci, fac, ns, rng, vs, stats, reps=6, only=None):
+    """ONE set_params call carrying several advertised keys of different kinds (an own option and keys nested below a
+    sub-estimator, prefixed or indexed): every given key holds its value afterwards and no other key moves."""
+    for rep in range(reps):
+        try:
+            o = fac()
+            before = o.get_params(deep=True)
+        except Exception:  # noqa: BLE001
+            return
+        atoms = [k for k in sorted(before) if _atom(before[k]) and k != "method" and not k.endswith("__method")]
+        own = [k for k in atoms if key_shape(k) == "<own>" and "__" not in k]
+        nested = [k for k in atoms if k not in own]
+        if only is not None:
+            keys = list(only)
+        else:
+            if not nested or not atoms:
+                return
+            keys = [rng.choice(nested)]
+            if own and rng.random() < 0.8:
+                keys.append(rng.choice(own))
+            more = [k for k in nested if k not in keys]
+            if more and rng.random() < 0.5:
+                keys.append(rng.choice(more))
+        if any(k not in before for k in keys):
+            return
+        kv = {k: new_value(k, before[k], o, ns, rng) for k in keys}
+        inp = {"class": name, "config": ci, "kind": "multi", "keys": keys}
+        stats["evaluations"] += 1
+        stats["nontrivial"].add((name, "multi", tuple(sorted(key_shape(k) for k in keys))))
+        sdef = definer(o, "set_params")
+        shape = "+".join(sorted(set(key_shape(k) for k in keys)))
+        try:
+            r = o.set_params(**kv)
+            after = o.get_params(deep=True)
+        except Exception as ex:  # noqa: BLE001
+            vs.append(Violation("%s.set_params:multi-key:raises:%s" % (sdef, shape),
+                                "set_params raises %s when given several advertised keys at once" % type(ex).__name__, inp,
+                                "%s: %s" % (type(ex).__name__, str(ex)[:100]), "every key is set"))
+            return
+        if r is not o:
+            vs.append(Violation("%s.set_params:multi-key:returns-not-self" % sdef, "set_params does not return the estimator",
+                                inp, repr(r)[:60], "self"))
+        lost = [k for k in keys if k not in after or not same(after[k], kv[k])]
+        if lost:
+            vs.append(Violation("%s.set_params:multi-key:value-not-set:%s" % (sdef, shape),
+                                "one set_params call with several advertised keys: some keep their old value",
+                                inp, {k: canon(after.get(k), ns)[:40] for k in lost}, {k: canon(kv[k], ns)[:40] for k in lost}))
+            return
+        moved = [k for k in before if k not in kv and (k not in after or not same(after[k], before[k]))]
+        if moved:
+            vs.append(Violation("%s.set_params:multi-key:other-keys-changed:%s" % (sdef, shape),
+                                "one set_params call with several advertised keys changes keys it was not given",
+                                inp, moved[:6], "only the given keys change"))
+            return
+        if only is not None:
+            return
+
+
 def check_siblings(name, ns, rng, vs, stats):
     """Instances are separate objects: two instances built by the SAME constructor call (here: all defaults) share no
     parameter object, so set_params on one changes exactly the keys of THAT object - what another instance, or a
@@ -1270,6 +1398,10 @@ def search(ctx, hints):
     for n in names:
         if n in ns["cls"]:
             check_siblings(n, ns, rng, vs, stats)
+            check_ctor_values(ctx, n, ns, vs, stats)
+        if n in cfg and n in ns["cls"]:
+            for ci, fac in enumerate(cfg[n]):
+                check_multi(n, ci, fac, ns, rng, vs, stats, reps=ctx.pick(6, 40))
     # histories on the real objects: single-key sets on advertised keys interleaved with clone / get
     for n in names:
         if n not in cfg or n not in ns["cls"]:
@@ -1375,6 +1507,22 @@ def replay(ctx, item):
         vs.extend(probe_non_normalised())
     elif kind == "siblings":
         check_siblings(name, ns, random.Random(0), vs, stats)
+    elif kind == "ctor":
+        from props import _guided
+        class _C:            # replay through the same function, restricted to the recorded keyword arguments
+            repo = ctx.repo
+
+            @staticmethod
+            def pick(a, b):
+                return 10 ** 6
+        orig = _guided.overrides
+        _guided.overrides = lambda *a, **k: [inp["kwargs"]]
+        try:
+            check_ctor_values(_C, name, ns, vs, stats)
+        finally:
+            _guided.overrides = orig
+    elif kind == "multi":
+        check_multi(name, inp["config"], cfg[name][inp["config"]], ns, random.Random(0), vs, stats, reps=1, only=inp["keys"])
     elif kind == "transfer":
         check_transfer(name, inp["config"], inp["config2"], cfg[name], ns, vs, stats)
     elif kind == "history":
